@@ -226,6 +226,31 @@ def r43(ctx):
         ctx.bad(rid, writes[0], "a replaced path can get more than one row (write is not exactly once per element of the archive list)")
 
 
+def r45(ctx):
+    """The idle guard really distinguishes busy from idle paths: membership tests against the
+    locked paths compare path numbers in one representation (shared with C03 R-3.8)."""
+    from . import c03
+    from ..loader import FUNC
+
+    class Proxy:
+        def __init__(self, c):
+            self._c = c
+            self.tree = c.tree
+
+        def ok(self, rid, node, what, nontrivial=True):
+            self._c.ok("R-4.5", node, what, nontrivial)
+
+        def bad(self, rid, node, message, **kw):
+            self._c.bad("R-4.5", node, message, **kw)
+
+        def note(self, m):
+            self._c.note(m)
+
+    cls = ctx.tree.cls(REPEX, "REPEX_state")
+    methods = {s.name: s for s in cls.body if isinstance(s, FUNC)}
+    c03.r38(Proxy(ctx), methods)
+
+
 def r44(ctx):
     ctx.ok("R-4.4", None, "restart round trip of accumulators (str(path number) keys on both sides, all keys of traj_data serialised) is decided under C06 R-6.1", nontrivial=False)
 
@@ -234,11 +259,13 @@ def run(ctx):
     ctx.rule("R-4.1", "who may write traj_data[...]['frac']", floor=4)
     ctx.rule("R-4.2", "accumulate only for idle live paths, after the finished job was inserted", floor=1)
     ctx.rule("R-4.3", "archive exactly once, only on replacement, removing the path from the live table before the commit", floor=5)
+    ctx.rule("R-4.5", "the idle guard compares path numbers in one representation (shared with C03 R-3.8)", floor=3)
     ctx.rule("R-4.4", "restart round trip of accumulators (cross-reference to C06)", floor=1)
     ctx.attempt(r41, ctx)
     ctx.attempt(r42, ctx)
     ctx.attempt(r43, ctx)
     ctx.attempt(r44, ctx)
+    ctx.attempt(r45, ctx)
 
 
 VARIANTS = [
@@ -257,6 +284,7 @@ VARIANTS = [
     B("c04-archive-live-paths", REPEX, 'write_to_pathens(self, md_items["pnum_old"])', "write_to_pathens(self, pn_news)", "R-4.3"),
     B("c04-second-archive-site", REPEX, "        self.print_end()\n            self.write_toml()", "        self.print_end()\n            write_to_pathens(self, self.live_paths())\n            self.write_toml()", "R-4.3"),
     B("c04-index-into-filtered-list", REPEX, "        for idx, live in enumerate(self.live_paths()):\n            if live not in locked_trajs:\n                self.traj_data[live][\"frac\"] += self._last_prob[:-1][idx, :]", "        idle_trajs = [live for live in self.live_paths() if live not in locked_trajs]\n        for idx, live in enumerate(idle_trajs):\n            self.traj_data[live][\"frac\"] += self._last_prob[:-1][idx, :]", "R-4.2", why="seeded C04_a"),
+    B("c04-locked-paths-from-record", REPEX, "        locks = [\n            t0.path_number\n            for t0, l0 in zip(self._trajs[:-1], self._locks[:-1])\n            if l0\n        ]\n        return locks", "        return [pnum for _, pnums in self.locked for pnum in pnums]", "R-4.5", why="seeded C03_a / C05_a: busy paths would receive weight"),
     K("c04-keep-prefiltered-pairs", REPEX, "        for idx, live in enumerate(self.live_paths()):\n            if live not in locked_trajs:\n                self.traj_data[live][\"frac\"] += self._last_prob[:-1][idx, :]", "        idle = [(idx, live) for idx, live in enumerate(self.live_paths()) if live not in locked_trajs]\n        for idx, live in idle:\n            self.traj_data[live][\"frac\"] += self._last_prob[:-1][idx, :]"),
     K("c04-keep-guard-via-set", REPEX, "            if live not in locked_trajs:\n                self.traj_data[live][\"frac\"] +=", "            if not (live in locked_trajs):\n                self.traj_data[live][\"frac\"] +="),
     K("c04-keep-acc-swapped", REPEX, '        if md_items["status"] == "ACC":\n            write_to_pathens', '        if "ACC" == md_items["status"]:\n            write_to_pathens'),
